@@ -144,6 +144,8 @@ class NameEncode(Contract):
 
 
 CONTRACTS = [NameEncode]
+for _k in CONTRACTS:
+    _k.replay_decides = False  # the header-name cache and the canonical-case table are uninterpreted state
 BOUNDED = bounded("C20")
 _SCOPE = ("response scripts run through the real Request / HTTPChannel and parsed with h11 against a reference model of the "
           "statement: exhaustive short header names / values, cookie components, reason phrases and write sequences (HTTP/1.0 and "
